@@ -159,6 +159,9 @@ func (fr *frame) formatV(a value, verb byte) value {
 	if !ok {
 		panic(engineBug{fmt.Sprintf("fmt operand %T", a)})
 	}
+	if it.t == rtypeType {
+		return typeString(it.v.(rtype).t)
+	}
 	if verb == 'T' {
 		s := typeString(it.t)
 		s = strings.ReplaceAll(s, "interface{}", "interface {}")
